@@ -45,6 +45,15 @@ def run(res, tier):
         if not any("NoCrash" in e or "NoStaleDelete" in e for e in rp["errors"]):
             raise Inconclusive("self-test: TLC no longer finds the crash in the pinned-commit protocol (invariants vacuous?)")
         cov["model_selftest"] = "TLC finds the send-on-closed-channel crash in Mode=pinned in %d states" % rp["distinct"]
+        # shutdown with handlers still running (beyond C09's "never crashes"): safety holds; the liveness property ClosersEnd
+        # (a handler that has come back gets through Close) fails for the code as it is and holds for a Close that gives up
+        rs = run_tlc(tmp, "L4Udp.tla", "L4Udp_shutdown.cfg", timeout=900)
+        rsf = run_tlc(tmp, "L4Udp.tla", "L4Udp_shutdown_fixed.cfg", timeout=900)
+        tlc_ok(rsf, "L4Udp shutdown, Close gives up")
+        if any(x in e for e in rs["errors"] for x in ("NoCrash", "NoStaleDelete", "OwnClientOnly", "InOrder")):
+            raise Inconclusive(f"L4Udp_shutdown: a safety invariant fails in the model of the repaired protocol: {rs['errors'][:2]}")
+        cov["model_shutdown"] = dict(states=rs["distinct"], closers_end_violated_as_is=any("ClosersEnd" in e for e in rs["errors"]), closers_end_holds_when_close_gives_up=True,
+                                     note="observation, not judged: C09 speaks about crashes; see handlers_outlive_loop for the real code")
         # 2. free-running bursts on the real loop, in a child process
         g = grid(tmp, "L4UdpGrid", tier)
         gf = os.path.join(tmp, "grid.ndjson")
